@@ -35,7 +35,9 @@ MANIFEST = {
 }
 
 SEGS = ["a", "..", ".", "", "x" * 250]
-DISGUISED = ["..\x00", "\x00..", ".\x00.", ".\x00"]
+DISGUISED = ["..\x00", "\x00..", ".\x00.", ".\x00",
+             # compatibility characters that Unicode normalisation (NFKC/NFKD) folds into '.', '..' and '/'
+             "\u2025", "\u2024\u2024", "\uff0e\uff0e", "\u2024.", "a\uff0f..\uff0f..\uff0fb"]
 SIBLINGS = ["out2", "out.bak", "ou"]          # names sharing a CHARACTER prefix with the output directory's name "out"
 ALLSEGS = SEGS + DISGUISED + SIBLINGS
 MNAMES = ["m", "../e", "a/b", "..", "x" * 300, "/abs"]
@@ -93,6 +95,8 @@ def features(case):
         f.append("class:dotdot")
     if any("\x00" in n for n in names):
         f.append("class:nul-disguised-dots")
+    if any(ord(ch) > 0x2000 for n in names for ch in n):
+        f.append("class:unicode-compat-dots")
     if any(n in SIBLINGS for n in names):
         f.append("class:sibling-prefix")
     if "." in names:
@@ -164,7 +168,7 @@ def judge(case):
         if outside:
             fs = features(case)
             # input-side key: the most specific hostile component (class '..' dominates, then the method-name kind)
-            dom = ([f for f in fs if f == "class:sibling-prefix"] or [f for f in fs if f == "class:nul-disguised-dots"] or [f for f in fs if f == "class:dotdot"] or [f for f in fs if f.startswith("method:") and f != "method:plain"]
+            dom = ([f for f in fs if f == "class:unicode-compat-dots"] or [f for f in fs if f == "class:sibling-prefix"] or [f for f in fs if f == "class:nul-disguised-dots"] or [f for f in fs if f == "class:dotdot"] or [f for f in fs if f.startswith("method:") and f != "method:plain"]
                    or [f for f in fs if f.startswith("param:")] or [f for f in fs if f.startswith("class:")] or ["plain"])[0]
             return ("escape:" + dom,
                     "class %r method %r: created outside the output directory %s: %s (exception: %s)"
